@@ -3,7 +3,7 @@ import ast
 from fractions import Fraction
 
 from ..model import (AnalysisError, dotted, norm_text, names_read,
-                     stmts_in_order,
+                     stmts_in_order, expand_aug,
                      const_value)
 from ..cfg import structural_guards
 
@@ -145,7 +145,7 @@ def _cfg_text(e):
   return t.replace('self.', '').replace('int(', '(').replace(' ', '')
 
 
-def _symbolic(fn, roles, target_call):
+def _symbolic(fn, roles, target_call, trace=None):
   """polynomial of the argument of the activation call, following simple
   assignments / augmented assignments of local names in statement order."""
   env = {}
@@ -183,7 +183,8 @@ def _symbolic(fn, roles, target_call):
     return False
 
   # walk statements in source order up to the one holding target_call
-  stmts = [s for s in stmts_in_order(fn.node)
+  stmts = [s for s in (trace if trace is not None else
+                       stmts_in_order(fn.node))
            if isinstance(s, (ast.Assign, ast.AugAssign))]
   for st in stmts:
     if any(x is target_call for x in ast.walk(st)):
@@ -205,21 +206,126 @@ def _kw(c):
   return {k.arg: k.value for k in c.keywords}
 
 
+_CDF_CFG = {'scaling_parameters': 'given',
+            'scaling_exp_transform_multiplier': None,
+            'return_derived_parameters': False}
+
+
+def _cfg_trace(fn, cfg):
+  """simple statements fn executes under the configuration cfg ({role text:
+  value}; roles are _cfg_text of the tested expression): tests are
+  comparisons of a role with a literal, `role is (not) None`, a bare role,
+  `not`, and / or of those; a test outside that language is an analysis
+  error"""
+  def value(e):
+    k = _cfg_text(e)
+    if k in cfg:
+      return True, cfg[k]
+    return False, None
+
+  def decide(t):
+    if isinstance(t, ast.UnaryOp) and isinstance(t.op, ast.Not):
+      return not decide(t.operand)
+    if isinstance(t, ast.BoolOp):
+      vs = [decide(v) for v in t.values]
+      return all(vs) if isinstance(t.op, ast.And) else any(vs)
+    if isinstance(t, ast.Compare) and len(t.ops) == 1:
+      known, v = value(t.left)
+      r = t.comparators[0]
+      if known and isinstance(r, ast.Constant):
+        op = t.ops[0]
+        if isinstance(op, (ast.Is, ast.IsNot)) and r.value is None:
+          return (v is None) == isinstance(op, ast.Is)
+        if isinstance(op, (ast.Eq, ast.NotEq)):
+          return (v == r.value) == isinstance(op, ast.Eq)
+    known, v = value(t)
+    if known:
+      return bool(v)
+    raise AnalysisError('%s: test `%s` is not decided by the configuration' %
+                        (fn.loc(t), norm_text(t)[:60]))
+  out = []
+
+  def block(stmts):
+    for st in stmts:
+      if isinstance(st, ast.If):
+        if block(st.body if decide(st.test) else st.orelse):
+          return True
+        continue
+      if isinstance(st, ast.Raise):
+        raise AnalysisError('%s: the configuration %s raises' % (
+            fn.loc(st), sorted(cfg.items(), key=str)))
+      if isinstance(st, (ast.For, ast.While, ast.With, ast.Try)):
+        raise AnalysisError('%s: compound statement on the evaluation path' %
+                            fn.loc(st))
+      out.append(st)
+      if isinstance(st, ast.Return):
+        return True
+    return False
+  block(fn.node.body)
+  return out
+
+
+def _closed_return(fn, trace, keep):
+  """the returned expression with every local outside `keep` replaced by the
+  value assigned along the trace"""
+  import copy
+  env = {}
+
+  class S(ast.NodeTransformer):
+    def visit_Name(self, n):
+      if isinstance(n.ctx, ast.Load) and n.id in env:
+        return copy.deepcopy(env[n.id])
+      return n
+  for st in trace:
+    st = expand_aug(st)
+    if isinstance(st, ast.Assign) and len(st.targets) == 1 and isinstance(
+        st.targets[0], ast.Name):
+      nm = st.targets[0].id
+      if nm in keep:
+        env.pop(nm, None)
+        continue
+      env[nm] = S().visit(copy.deepcopy(st.value))
+    elif isinstance(st, ast.Return) and st.value is not None:
+      return ast.fix_missing_locations(S().visit(copy.deepcopy(st.value)))
+  raise AnalysisError('%s: no value returned on the evaluation path' %
+                      fn.qualname)
+
+
+_CDF_KEEP = {'x', 'input_dim', 'num_terms', 'inputs'}
+
+
+def _cdf_value(fn, activation, sparsity, reduction):
+  cfg = dict(_CDF_CFG, activation=activation, sparsity_factor=sparsity,
+             reduction=reduction)
+  trace = _cfg_trace(fn, cfg)
+  return trace, _closed_return(fn, trace, _CDF_KEEP)
+
+
 def _activation_steps(prog, fn):
-  """{activation id: (outer form with Z, call)}"""
+  """{activation id: (outer form with Z, call, trace)} - by value: what the
+  function returns for that activation with sparsity_factor 1 and reduction
+  'none' (every later step is then the identity)"""
   out = {}
-  for st in ast.walk(fn.node):
-    if not isinstance(st, ast.Assign):
-      continue
-    for c in ast.walk(st.value):
-      if isinstance(c, ast.Call):
-        ext = prog.ext_name(fn.module, c.func) or ''
-        if ext in ('tf.nn.relu6', 'tf.nn.sigmoid', 'tf.sigmoid'):
-          kind = 'relu6' if ext.endswith('relu6') else 'sigmoid'
-          # outer form: replace the activation argument by Z
-          src = norm_text(st.value)
-          arg = norm_text(c.args[0])
-          out[kind] = (src.replace(arg, 'Z', 1).replace(' ', ''), c)
+  for kind in ('relu6', 'sigmoid'):
+    trace, val = _cdf_value(fn, kind, 1, 'none')
+
+    def acts(node):
+      return [c for c in ast.walk(node) if isinstance(c, ast.Call) and (
+          prog.ext_name(fn.module, c.func) or '') in (
+              'tf.nn.relu6', 'tf.nn.sigmoid', 'tf.sigmoid')]
+    orig = [c for st in trace for c in acts(st)]
+    inside = acts(val)
+    if len(orig) != 1 or len(inside) != 1:
+      raise AnalysisError('%s: expected one activation call for activation '
+                          '%s (found %d)' % (fn.qualname, kind, len(orig)))
+    ext = prog.ext_name(fn.module, inside[0].func)
+    got = 'relu6' if ext.endswith('relu6') else 'sigmoid'
+    src = norm_text(val)
+    arg = norm_text(inside[0].args[0])
+    outer = src.replace(arg, 'Z', 1).replace(' ', '')
+    if got != kind:
+      outer = '%s!=%s:' % (got, kind) + outer
+    out[kind] = (outer, orig[0], trace)
   return out
 
 
@@ -228,17 +334,14 @@ def _cdf_pair(prog, res):
   fn = prog.function('conditional_cdf.cdf_fn')
   res.analysed(layer, fn)
   la, fa = _activation_steps(prog, layer), _activation_steps(prog, fn)
-  if set(la) != {'relu6', 'sigmoid'} or set(fa) != {'relu6', 'sigmoid'}:
-    raise AnalysisError('CDF pair: activation steps not found (%s / %s)' % (
-        sorted(la), sorted(fa)))
   for kind in ('relu6', 'sigmoid'):
     res.check(la[kind][0] == fa[kind][0], 'Y1', 'cdf|activation:%s' % kind,
               fn.loc(fa[kind][1]),
               'both forms compute %s' % la[kind][0],
               'CDF.call computes `%s` but cdf_fn computes `%s` for activation '
               '%s' % (la[kind][0], fa[kind][0], kind))
-    pl = _symbolic(layer, ROLES_LAYER, la[kind][1])
-    pf = _symbolic(fn, ROLES_FN, fa[kind][1])
+    pl = _symbolic(layer, ROLES_LAYER, la[kind][1], la[kind][2])
+    pf = _symbolic(fn, ROLES_FN, fa[kind][1], fa[kind][2])
     res.check(pl == pf, 'Y1', 'cdf|pre-activation:%s' % kind,
               fn.loc(fa[kind][1]),
               'pre-activation is %s in both forms' % pl,
@@ -268,30 +371,24 @@ def _cdf_pair(prog, res):
             'both reshapes run under `%s`' % ' and '.join(gl),
             'the sparsity reshape is guarded by %s in CDF.call and by %s in '
             'cdf_fn' % (gl, gf))
-  # reductions
+  # reductions, by value: what is returned for reduction r, written over
+  # `result` = what is returned for reduction 'none'
   def reductions(f):
     out = {}
-    for st in ast.walk(f.node):
-      if isinstance(st, ast.If):
-        node = st
-        while True:
-          t = node.test
-          if isinstance(t, ast.Compare) and isinstance(
-              t.ops[0], ast.Eq) and _cfg_text(t.left) == 'reduction':
-            rid = const_value(t.comparators[0], None)
-            for a in node.body:
-              if isinstance(a, ast.Assign) and dotted(
-                  a.targets[0]) == 'result':
-                out[rid] = a.value
-          if len(node.orelse) == 1 and isinstance(node.orelse[0], ast.If):
-            node = node.orelse[0]
-          else:
-            break
+    _, base = _cdf_value(f, 'sigmoid', 1, 'none')
+    bt = norm_text(base)
+    for rid in ('mean', 'geometric_mean'):
+      _, v = _cdf_value(f, 'sigmoid', 1, rid)
+      vt = norm_text(v)
+      if bt not in vt:
+        raise AnalysisError('CDF pair: reduction %s of %s does not reduce '
+                            'the unreduced value' % (rid, f.qualname))
+      e = ast.parse(vt.replace(bt, 'result'), mode='eval').body
+      out[rid] = ast.copy_location(ast.fix_missing_locations(e), f.node)
+      for n in ast.walk(out[rid]):
+        ast.copy_location(n, f.node)
     return out
   rl, rf = reductions(layer), reductions(fn)
-  for need in ('mean', 'geometric_mean'):
-    if need not in rl or need not in rf:
-      raise AnalysisError('CDF pair: reduction %s not found' % need)
   def _red(f, e):
     # (op, operand, axis normalised on the rank-3 (batch, inputs, units) tensor)
     if isinstance(e, ast.Call):
